@@ -82,12 +82,18 @@ def generate(ck):
 
 
 def msg_signature(text):
-    """Stable signature of an error text: first line, numbers / quoted values blanked."""
-    t = str(text).split('\n')[0]
+    """Stable signature of an error text: first line, quoted values / numbers blanked, VTL codes kept."""
+    t = str(text).split('\n')[0].split(' when casting from source column')[0]
+    t = re.sub(r'^[A-Z][A-Za-z ]{2,24} Error: ', '', t)
     t = re.sub(r'"[^"]*"', '"?"', t)
     t = re.sub(r"'[^']*'", "'?'", t)
+    codes = re.findall(r'\b\d+(?:-\d+){2,3}\b', t)
+    t = re.sub(r'\b\d+(?:-\d+){2,3}\b', '\x01', t)
     t = re.sub(r'-?\d+(\.\d+)?([eE][-+]?\d+)?', '#', t)
-    return t[:110]
+    for c in codes:
+        t = t.replace('\x01', c, 1)
+    t = re.sub(r'\bgot \w+$', 'got ?', t)
+    return t[:90]
 
 
 def points(s):
